@@ -5,6 +5,7 @@ import (
 	"bytes"
 	"fmt"
 	"go/ast"
+	"go/build/constraint"
 	"go/parser"
 	"go/scanner"
 	"go/token"
@@ -222,12 +223,19 @@ func checkRecipe(base *recipe.File, dec *recipe.Decisions, seed uint64) (int, []
 		if err != nil {
 			return 0, nil, nil
 		}
+		if mode == "formatted" && inKF3(placed) {
+			// input class of known finding KF3: the formatted output is not judged (see inKF3)
+			continue
+		}
 		codeB, cmtB, err := scan(outB, true)
 		if err != nil {
 			return len(placed), placed, fmt.Errorf("%s: output with comments does not scan: %v", mode, err)
 		}
 		if ok, why := sameCode(codeA, codeB); !ok {
 			return len(placed), placed, fmt.Errorf("%s: the comments changed the code's token sequence: %s", mode, why)
+		}
+		if err := stillParses(mode, outA, outB); err != nil {
+			return len(placed), placed, err
 		}
 		if mode == "NoFormat" {
 			// preservation: the comments found, minus those of the comment-free build (cgo preambles), in order
@@ -271,7 +279,48 @@ type genCase struct {
 	Texts []string          `json:"texts"`
 }
 
-func checkGen(c genCase) error {
+func checkGen(c genCase) error { return checkGenX(c, true) }
+
+// probeGen judges a case without steering away from the input classes of the known findings.
+func probeGen(c genCase) error { return checkGenX(c, false) }
+
+// inKF3 is the input class of known finding KF3: a comment whose text, written behind "// ", reads as a
+// build constraint line of the old style ("+build linux"). gofmt's build-constraint fix-up (go/printer
+// fixGoBuildLines) takes every such comment, wherever it stands, for a constraint of the file: it moves it
+// in front of the package clause, writes a //go:build line above it and deletes the rest of the line the
+// comment stood on together with its line break, so a comment at the end of an item joins two lines of code
+// (`F int  G int`), and a form feed in the text cuts the comment in two. gofmt does the same to a
+// hand-written file; the unformatted output is right.
+func inKF3(placed []mutate.Placed) bool {
+	for _, p := range placed {
+		if kf3Text(p.Text) {
+			return true
+		}
+	}
+	return false
+}
+
+func kf3Text(text string) bool {
+	line := text
+	if i := strings.IndexAny(line, "\f\r"); i >= 0 {
+		line = line[:i] // (go/printer ends the line there)
+	}
+	return !strings.Contains(text, "\n") && constraint.IsPlusBuild("// "+line)
+}
+
+// stillParses: where the comment-free output parses as a Go file, the output with comments does too (two
+// lines of code joined into one keep their tokens and lose their meaning).
+func stillParses(mode string, without, with []byte) error {
+	if _, err := parser.ParseFile(token.NewFileSet(), "", without, parser.SkipObjectResolution); err != nil {
+		return nil
+	}
+	if _, err := parser.ParseFile(token.NewFileSet(), "", with, parser.SkipObjectResolution|parser.ParseComments); err != nil {
+		return fmt.Errorf("%s: the output without the comments parses as a Go file, the output with them does not: %v\n--- with comments ---\n%s", mode, err, with)
+	}
+	return nil
+}
+
+func checkGenX(c genCase, exclude bool) error {
 	c.Dec.Rewind()
 	i := 0
 	text := func() string {
@@ -303,12 +352,18 @@ func checkGen(c genCase) error {
 		if err != nil {
 			return nil
 		}
+		if mode == "formatted" && exclude && inKF3(placed) {
+			continue
+		}
 		codeB, cmtB, err := scan(outB, true)
 		if err != nil {
 			return fmt.Errorf("%s: output with comments does not scan: %v\n%s", mode, err, outB)
 		}
 		if ok, why := sameCode(codeA, codeB); !ok {
 			return fmt.Errorf("%s: the comments changed the code's token sequence: %s\n--- with comments ---\n%s", mode, why, outB)
+		}
+		if err := stillParses(mode, outA, outB); err != nil {
+			return err
 		}
 		if mode == "NoFormat" {
 			_, cmtA, _ := scan(outA, true)
@@ -920,6 +975,12 @@ func TestC15(t *testing.T) {
 		c.Dec = &recipe.Decisions{Draw: func(n int) int { return rapid.IntRange(0, n-1).Draw(rt2, "place") }}
 		_, placed := mutate.InjectComments(f, c.Dec, 3, func() string { return "c" })
 		c.Dec.Draw = nil
+		for _, tx := range c.Texts {
+			if kf3Text(tx) {
+				r.ExcludedKnown() // NoFormat output still judged; the formatted output is not (KF3)
+				break
+			}
+		}
 		if len(placed) > 0 {
 			r.NonTrivial(recipe.JSON(c))
 			r.Class("generated_with_comments")
@@ -928,6 +989,7 @@ func TestC15(t *testing.T) {
 	})
 
 	hx.Replay(r, hx.Check[fileCase]{Name: "known_finding_probe", Fn: probeFile})
+	hx.Replay(r, hx.Check[genCase]{Name: "known_finding_probe_body", Fn: probeGen})
 	hx.Rapid(r, t, hx.Check[fileCase]{Name: "file_level", Fn: checkFile}, r.N(1000, 10000), func(rt2 *rapid.T) fileCase {
 		c := fileCase{Body: rapid.Bool().Draw(rt2, "body")}
 		nh, np := rapid.IntRange(0, 4).Draw(rt2, "nheaders"), rapid.IntRange(0, 4).Draw(rt2, "npkg")
